@@ -12,7 +12,7 @@ BIG = 10 ** 4
 @st.composite
 def cases(draw, tier):
     big = tier == "thorough"
-    mode = draw(st.sampled_from(["exact", "exact", "exact", "poly", "poly", "cmf", "conserve", "limit", "adaptive", "td", "td_adaptive", "solver"]))
+    mode = draw(st.sampled_from(["exact", "exact", "exact", "switch", "poly", "poly", "cmf", "conserve", "limit", "adaptive", "td", "td_adaptive", "solver"]))
     spec = draw(chain.chain_model_specs(2, 5 if big else 4, max_dim=64 if not big else 128))
     terms = draw(gen.hermitian_hamiltonian(spec, max_terms=4))
     c = {"mode": mode, "model": spec, "terms": terms, "q": draw(st.integers(0, 50)), "rng": draw(st.integers(0, 10 ** 6)),
@@ -22,6 +22,17 @@ def cases(draw, tier):
          "dm": draw(st.integers(0, 4)) == 0}
     if mode == "exact":
         c["scheme"] = draw(evo.scheme_specs(("ps", "ps2", "vmf", "vmf")))
+    elif mode == "switch":
+        # a sequence of calls that switches scheme and step between calls
+        menu = [{"fam": "ps", "kind": "tdvp_ps", "solver": "krylov"}, {"fam": "ps2", "kind": "tdvp_ps2", "solver": "krylov"},
+                {"fam": "pc", "kind": "pc_taylor", "order": 4}, {"fam": "pc", "kind": "pc_taylor", "order": 6},
+                {"fam": "pc", "kind": "pc_tdrk4"}, {"fam": "pc", "kind": "pc_tdrk", "rk": "C_RK4"},
+                {"fam": "pc", "kind": "pc_tdrk", "rk": "Kutta_RK3"}, {"fam": "ps", "kind": "tdvp_ps", "solver": "RK45"}]
+        c["schemes"] = draw(st.lists(st.sampled_from(menu), min_size=2, max_size=4))
+        if draw(st.booleans()):
+            c["schemes"] = [{"fam": "vmf", "kind": draw(st.sampled_from(["tdvp_vmf", "tdvp_mu_vmf"])), "force_ovlp": True, "auto_switch": False}] + c["schemes"][:3]
+        c["scheme"] = c["schemes"][0]
+        c["steps"] = draw(st.lists(st.sampled_from([0.02, 0.05, 0.1, 0.2]), min_size=4, max_size=4))
     elif mode == "poly":
         c["scheme"] = draw(evo.scheme_specs(("pc",)))
     elif mode == "cmf":
@@ -126,6 +137,19 @@ def prepare_state(case, r, full=True, m0=None):
         mps.ensure_right_canonical()
     mps.coeff = complex(*case["coeff"]) if case["coeff"][1] != 0 else case["coeff"][0]
     return mps, model, q, bl
+
+
+def ps_is_exact(mps, kind="tdvp_ps"):
+    """projector splitting has no splitting error only on two sites whose bond carries a COMPLETE basis of the smaller side
+    (bond dimension = min of the two physical dimensions); holding the state (bond = Schmidt rank) is not enough when symmetry
+    blocks make the generic rank smaller than that (e.g. two 3-level sites with labels (1,1,0): rank 2, complete basis 3)"""
+    if len(mps) != 2:
+        return False
+    if kind == "tdvp_ps2":
+        return True  # the two-site tensor of a two-site chain is the whole state
+    d0 = int(np.prod(mps[0].shape[1:-1]))
+    d1 = int(np.prod(mps[1].shape[1:-1]))
+    return mps.bond_dims[1] >= min(d0, d1)
 
 
 class C09(Prop):
@@ -293,7 +317,7 @@ class C09(Prop):
             tol = 3e-4 * max(1.0, t) * len(dts) * nrm
         if s["kind"] in ("tdvp_vmf", "tdvp_mu_vmf"):
             tol = 1e-4 * max(1.0, t) * len(dts) * nrm
-        if s["kind"] in ("tdvp_ps", "tdvp_ps2") and len(mps) > 2:
+        if s["kind"] in ("tdvp_ps", "tdvp_ps2") and not ps_is_exact(mps, s["kind"]):
             # the projector-splitting schemes are second-order integrators: even when the bond dimensions hold the state,
             # the left/right bases of an interior site are complete only on the smaller side, so a step carries a
             # splitting error O((||H||dt)^3) (measured constant <= 0.05; exact for two sites, where both bases are complete)
@@ -304,6 +328,52 @@ class C09(Prop):
                 "left the sector")
         if len(dts) > 1:
             r.classes.append("split_calls")
+
+    # ---- successive calls switching scheme and step -------------------------------------------------------------------
+    def mode_switch(self, case, r, mps, mpo, H, psi0, t, evolve, apply_ref, model, q, spec, use_dm):
+        from renormalizer.utils.rk import RungeKutta
+
+        cur = mps
+        ref = psi0.astype(complex)
+        nrm = np.linalg.norm(psi0)
+        tol = 0.0
+        n = len(mps)
+        names = []
+        for k, s in enumerate(case["schemes"]):
+            dt = case["steps"][k % len(case["steps"])]
+            cfg = evo.make_evolve_config(s)
+            if s["fam"] != "pc":
+                # the projector schemes work on a canonical state (a gauge move, the represented state is the same)
+                cur = cur.copy()
+                cur.ensure_left_canonical()
+                cur.ensure_right_canonical()
+            cur = evolve(cur, dt, cfg, normalize=False)
+            A = -1j * dt * H
+            if s["kind"] == "pc_taylor":
+                ref = evo.taylor_apply(A, ref, s["order"])
+                tol += 1e-8 * nrm
+            elif s["kind"] == "pc_tdrk4":
+                ref = evo.rk4_apply(A, ref)
+                tol += 1e-8 * nrm
+            elif s["kind"] == "pc_tdrk":
+                a, b, c = RungeKutta(s["rk"]).tableau
+                ref = evo.stability_poly_apply(a, b[0], A, ref)
+                tol += 1e-8 * nrm
+            else:
+                ref = apply_ref(-1j * dt, ref)
+                if s["kind"] in ("tdvp_vmf", "tdvp_mu_vmf"):
+                    tol += 1e-4 * nrm
+                elif s.get("solver") in ("RK45", "RK23"):
+                    tol += 3e-4 * nrm
+                else:
+                    tol += 1.5e-5 * 4 * n * nrm
+                if s["kind"] in ("tdvp_ps", "tdvp_ps2") and not ps_is_exact(mps, s["kind"]):
+                    tol += 0.5 * dt ** 3 * nrm
+            names.append(s["kind"])
+        got = chain.dense_of(cur)
+        r.classes.append("switch." + ">".join(sorted(set(n_[:7] for n_ in names))))
+        r.check_close("switch.sequence", got, ref, tol, f"calls {[(s_['kind'], s_.get('rk', s_.get('order', s_.get('solver')))) for s_ in case['schemes']]} "
+                                                          f"steps {case['steps'][:len(case['schemes'])]} vs the product of the per-call references")
 
     # ---- polynomial schemes vs algebraic replica ----------------------------------------------------------
     def mode_poly(self, case, r, mps, mpo, H, psi0, t, evolve, apply_ref, model, q, spec, use_dm):
